@@ -238,12 +238,8 @@ func attrSliceEqual(a, b Attributes) bool {
 }
 
 func attrEqual(attrA, attrB Attributes) bool {
-	if attrA == nil && attrB == nil {
-		return true
-	}
-	if attrA == nil || attrB == nil {
-		return false
-	}
+	// A nil and an empty attribute list hold the same (no) attributes: a reused
+	// Message keeps an empty non-nil list where a fresh one has nil.
 	if len(attrA) != len(attrB) {
 		return false
 	}
